@@ -211,7 +211,7 @@ def run_instance(u, nm, inst, tier, keep=False):
         if rc != 0:
             res['status'] = 'error'; res['notes'].append('goto-cc: ' + (err or out)[-1500:]); return res
         # 3. contracts instrumentation
-        mode = u.get('mode', 'dfcc')
+        mode = u.get('mode', 'legacy')
         if mode == 'dfcc':
             steps = [['goto-instrument', '--dfcc', entry]
                      + (['--enforce-contract', subst(u['enforce'], inst)] if u.get('enforce') else [])
